@@ -160,7 +160,7 @@ type c18Req struct {
 type c18Case struct {
 	Role        string // leader | follower
 	Proxy       bool
-	LeaderState string // ok | down | 400 | 500 | noleader (the lock description names no holder: "empty" or "")
+	LeaderState string // ok | down | 400 | 500 | truncated (answer cut off after the header) | noleader (the lock description names no holder: "empty" or "")
 	Reqs        []c18Req
 }
 
@@ -170,7 +170,7 @@ var c18Writes = []string{"create", "update", "delete", "udelete", "compact"}
 func genC18(t *rapid.T) interface{} {
 	c := &c18Case{Role: rapid.SampledFrom([]string{"follower", "follower", "follower", "leader"}).Draw(t, "role")}
 	c.Proxy = DrawBool(t, 40, "proxy")
-	c.LeaderState = rapid.SampledFrom([]string{"ok", "ok", "ok", "down", "400", "500", "noleader", "noleader-blank"}).Draw(t, "leaderState")
+	c.LeaderState = rapid.SampledFrom([]string{"ok", "ok", "ok", "down", "400", "500", "truncated", "noleader", "noleader-blank"}).Draw(t, "leaderState")
 	n := rapid.IntRange(3, 20).Draw(t, "nreqs")
 	for i := 0; i < n; i++ {
 		r := c18Req{API: rapid.SampledFrom([]string{"etcd", "brain"}).Draw(t, "api"), K: DrawIntn(t, 4, "key")}
@@ -233,6 +233,16 @@ func newC18Node(role string, proxy bool, leaderState string) (*c18Node, error) {
 		case "500":
 			w.WriteHeader(500)
 			return
+		case "truncated":
+			// the connection to the leader dies after the 200 header, before the whole body has arrived
+			body, _ := json.Marshal(&revision.LeaderRevision{Revision: atomic.LoadUint64(&n.leaderRev)})
+			w.Header().Set("Content-Length", fmt.Sprint(len(body)))
+			w.WriteHeader(200)
+			_, _ = w.Write(body[:len(body)/2])
+			if f, ok := w.(http.Flusher); ok {
+				f.Flush()
+			}
+			panic(http.ErrAbortHandler)
 		}
 		rev := atomic.LoadUint64(&n.leaderRev) // the leader computes its answer ...
 		if atomic.LoadInt32(&n.delayOn) == 1 {
@@ -626,7 +636,7 @@ func probeC18SingleFlight() (bool, string) {
 
 var specC18 = &Spec{
 	ID:   "C18",
-	Rule: "handler level: case = role {leader, follower} x proxy {on, off} x leader {answers, unreachable, answers 400, answers 500, no leader known (lock description names no holder)}; 15% of follower reads are issued 2..3 at a time with the leader's answer delayed so that they overlap in the revision fetch and 3..20 requests drawn from every request type of both APIs (etcd: Range get/list/count/partitions, range-stream watch, the four Txn shapes, the compaction Txn, Watch, Put, DeleteRange, Compact; native: Get, Range, Count, ListPartition, RangeStream, Create, Update, Delete, Compact, Watch), with the scripted leader committing 0..3 further revisions before a request. The handlers are the real etcd.New / brain.New objects over a recording Backend (delegating to a real one), leader.Stub, the real revision.NewRevisionSyncer pointed at an httptest server and a recording proxy. Oracle on a follower: no write method and no Watch of the backend is ever invoked; writes/watches are answered Unavailable or forwarded (etcd API, proxy on); a read calls SetCurrentRevision(x) before reading with x >= the revision the leader had committed when the read was invoked; if the leader is unreachable or answers with an error the read fails and the backend is not read. Non-trivial = follower case in which the leader advanced between reads or a write was forwarded; distinct = SHA-1 of the case",
+	Rule: "handler level: case = role {leader, follower} x proxy {on, off} x leader {answers, unreachable, answers 400, answers 500, answer cut off after the 200 header, no leader known (lock description names no holder)}; 15% of follower reads are issued 2..3 at a time with the leader's answer delayed so that they overlap in the revision fetch and 3..20 requests drawn from every request type of both APIs (etcd: Range get/list/count/partitions, range-stream watch, the four Txn shapes, the compaction Txn, Watch, Put, DeleteRange, Compact; native: Get, Range, Count, ListPartition, RangeStream, Create, Update, Delete, Compact, Watch), with the scripted leader committing 0..3 further revisions before a request. The handlers are the real etcd.New / brain.New objects over a recording Backend (delegating to a real one), leader.Stub, the real revision.NewRevisionSyncer pointed at an httptest server and a recording proxy. Oracle on a follower: no write method and no Watch of the backend is ever invoked; writes/watches are answered Unavailable or forwarded (etcd API, proxy on); a read calls SetCurrentRevision(x) before reading with x >= the revision the leader had committed when the read was invoked; if the leader is unreachable or answers with an error the read fails and the backend is not read. Non-trivial = follower case in which the leader advanced between reads or a write was forwarded; distinct = SHA-1 of the case",
 	Gen:  genC18,
 	New:  func() interface{} { return &c18Case{} },
 	Run:  runC18,
@@ -634,7 +644,7 @@ var specC18 = &Spec{
 		"singleflight-shares-fetch-started-before-read": probeC18SingleFlight,
 	},
 	Assumptions: []string{
-		"the leader is scripted (httptest /status endpoint with the real LeaderRevision JSON); two real nodes are exercised by the integrated thorough mode",
+		"the leader is scripted (httptest /status endpoint with the real LeaderRevision JSON); two complete nodes over one store are exercised by the integrated mode (TestC18Nodes)",
 	},
 	Engines: []string{EngMem},
 }
